@@ -14,7 +14,7 @@ func init() {
 		Technique: "AST/CFG rules for the sort that precedes both retention passes (comparator key = MaxTime, descending) and for the 'this block and everything after it' suffix loops; module-internal no-reach rule from the retention code to head truncation and WAL truncation; go/cfg order rules for reloadBlocks (parents of loaded blocks become deletable, blocks are swapped out before they are deleted)",
 		DesignRef: "DESIGN.md §5 C09",
 		Level: "Decides that deletableBlocks sorts the blocks newest-first by their maximum time before either retention pass looks at them, that both passes mark a block only as part of a suffix blocks[i:] of that order (so no block newer than a retained one is marked), that the size pass starts its sum from the head's on-disk size, " +
-			"that retention code cannot reach head truncation, head garbage collection or WAL truncation, that reloadBlocks marks every parent of every loadable block deletable (also when the parent no longer loads), never loads a deletable block, and swaps the block list before deleting anything.",
+			"that retention code cannot reach head truncation, head garbage collection or WAL truncation, that reloadBlocks marks every parent of every loadable block deletable (also when the parent no longer loads), never loads a deletable block, swaps the block list before deleting anything, and hands to the retention computation only the opened blocks that no other opened block has replaced.",
 		Note:           "Trusted: go/packages, go/types, go/cfg, module-internal call graph; rule tables in checker/c09.go.",
 		Covers:         "deletableBlocks, BeyondTimeRetention, BeyondSizeRetention, DB.blocksToDelete wiring, DB.reloadBlocks, DB.deleteBlocks.",
 		NotCover:       "the threshold arithmetic (time difference, cumulative size, percentage), equality ties.",
@@ -24,6 +24,7 @@ func init() {
 }
 
 func runC09(c *eng.Ctx) {
+	defer runC09Retain(c)
 	p := c.P
 	// ---- R1 order and suffix shape ----
 	{
@@ -172,7 +173,7 @@ func runC09(c *eng.Ctx) {
 		f.Only("R3", eng.Node("db.blocksToDelete(…)", func(g *eng.Graph, n ast.Node) bool {
 			call, ok := n.(*ast.CallExpr)
 			return ok && eng.ExprIsField(g.Info, call.Fun, p.Field("tsdb:DB.blocksToDelete"))
-		}), "decides over the loadable blocks", func(l eng.Loc) bool { a := eng.CallArgsText(l); return len(a) == 1 && a[0] == "loadable" })
+		}), "decides over one list of blocks (which list: R5)", func(l eng.Loc) bool { return len(eng.CallArgsText(l)) == 1 })
 		c.WritersSubset("R3", "tsdb:DB.blocksToDelete", 2, "tsdb:open")
 	}
 }
